@@ -118,11 +118,22 @@ var reqTypes = []rules.RequestType{rules.TypeDocument, rules.TypeScript, rules.T
 // sometimes a subdomain of it, sometimes unrelated.
 func queryHost(ch *core.Chooser, hosts []string) string {
 	h := hosts[ch.Intn("q.host", len(hosts))]
-	switch ch.Intn("q.hostform", 8) {
-	case 0:
+	switch ch.Intn("q.hostform", 24) {
+	case 0, 1, 2:
 		return "www." + h
-	case 1:
+	case 3, 4, 5:
 		return "unrelated.invalid"
+	// rare request shapes
+	case 6:
+		return strings.ToUpper(h)
+	case 7:
+		return h + "."
+	case 8:
+		return "192.0.2.55"
+	case 9:
+		return "2001:db8::5"
+	case 10:
+		return strings.Repeat("a", 60) + "." + h
 	}
 	return h
 }
@@ -145,6 +156,10 @@ func GenOp(ch *core.Chooser, hosts []string, kinds []int) Op {
 		}
 		scheme := []string{"http://", "https://", "ws://"}[ch.Intn("q.scheme", 3)]
 		o.URL = scheme + queryHost(ch, hosts) + webPaths[ch.Intn("q.path", len(webPaths))]
+		if ch.Intn("q.longurl", 40) == 39 {
+			// longer than the 4 KiB the library looks at
+			o.URL += "?pad=" + strings.Repeat("x", 4200) + "/ads.js"
+		}
 		if ch.Intn("q.hassrc", 2) == 0 {
 			o.Src = "https://" + queryHost(ch, hosts) + SrcPaths[ch.Intn("q.srcpath", len(SrcPaths))]
 		}
